@@ -32,6 +32,7 @@ func fnCmd(args []string) {
 	verbose := fs.Bool("v", false, "verbose")
 	only := fs.String("only", "", "substring filter on obligation names")
 	keep := fs.Bool("keep", false, "keep scripts")
+	explain := fs.Bool("explain", false, "for failing obligations, test each conjunct of the goal")
 	fs.BoolVar(&debugPanics, "debug", false, "re-panic on generator panics")
 	fs.Parse(args)
 	pat := fs.Args()
@@ -85,7 +86,7 @@ func fnCmd(args []string) {
 			bad++
 		}
 		for _, o := range obls {
-			okay := (o.Status == "unsat" && !o.ExpectSat) || (o.Status == "sat" && o.ExpectSat)
+			okay := (o.Status == "unsat" && !o.ExpectSat) || (o.ExpectSat && o.Status != "unsat" && o.Status != "error")
 			if !okay {
 				bad++
 			}
@@ -95,6 +96,9 @@ func fnCmd(args []string) {
 					mark = "FAIL"
 				}
 				fmt.Printf("   %s %-70s %-8s %-7s %.2fs  %s:%d\n", mark, o.Name, o.Status, o.Solver, o.TimeS, filepath.Base(o.Pos.Filename), o.Pos.Line)
+				if !okay && *explain && !o.ExpectSat {
+					explainObl(res.cx, o, work)
+				}
 				if !okay && o.Status == "error" {
 					lines := strings.Split(strings.TrimSpace(o.Output), "\n")
 					if len(lines) > 3 {
@@ -117,5 +121,52 @@ func fnCmd(args []string) {
 	if bad > 0 {
 		fmt.Printf("%d problems (scripts kept in %s)\n", bad, work)
 		os.Exit(1)
+	}
+}
+
+// flattenAnd splits nested conjunctions.
+func flattenAnd(t string) []string {
+	p := splitSexp(t)
+	if len(p) > 1 && p[0] == "and" {
+		var out []string
+		for _, c := range p[1:] {
+			out = append(out, flattenAnd(c)...)
+		}
+		return out
+	}
+	return []string{t}
+}
+
+func explainObl(cx *Ctx, o *Obligation, work string) {
+	goal := o.Goal.S
+	// peel implications: (=> a b) -> assume a, prove b
+	var hyps []string
+	for {
+		p := splitSexp(goal)
+		if len(p) == 3 && p[0] == "=>" {
+			hyps = append(hyps, p[1])
+			goal = p[2]
+			continue
+		}
+		break
+	}
+	for i, c := range flattenAnd(goal) {
+		g := c
+		for j := len(hyps) - 1; j >= 0; j-- {
+			g = "(=> " + hyps[j] + " " + g + ")"
+		}
+		o2 := *o
+		o2.Goal = Term{g, SBool}
+		script := cx.script(&o2)
+		file := filepath.Join(work, fmt.Sprintf("explain-%d.smt2", i))
+		os.WriteFile(file, []byte(script), 0o644)
+		r, _ := solve(file, 10*time.Second, 1, false)
+		if r.status != "unsat" {
+			txt := c
+			if len(txt) > 300 {
+				txt = txt[:300] + "..."
+			}
+			fmt.Printf("        conjunct %d: %s: %s\n", i, r.status, txt)
+		}
 	}
 }
